@@ -12,10 +12,10 @@ func init() {
 	register(&propDef{
 		ID:      "C16",
 		Level:   "other",
-		Explain: "gRPC proxy wiring (no test exercises it): (G1) in the stream interceptor the wrapped handler is called only under lookup err == nil and target != nil; the nil-target edge returns codes.NotFound, the lookup-error edge codes.Internal; (K1) the context key type written by the interceptor (context.WithValue) is the one the director reads (ctx.Value), and the stored value's static type is the asserted one; (M1) the director builds the outgoing context as metadata.NewOutgoingContext(ctx, md.Copy()) with md from metadata.FromIncomingContext(ctx) of the same call, and obtains the connection from the pool for the context's target; without a target it returns an error and no connection; (W1) newGrpcProxy returns options containing the proxy codec, UnknownServiceHandler(TransparentHandler(director)), a stream interceptor bound to the interceptor's Stream method, and receive/send limits from GRPCMaxRxMsgSize/GRPCMaxTxMsgSize (not swapped); (L1) the interceptor's lookup uses the full method as path, the single dsthost metadata value as host, the configured picker/matcher, and one GetTable().Lookup; (P1) the pool map is accessed only under its lock and every key is makeGRPCTargetKey(target) or a range key; (P2) the insert re-checks the map under the write lock (no double dial leak) and closes the surplus connection; (P3) the cleanup loop is paced, releases the lock before sleeping, deletes closed connections and those whose target left the table. (P4) the pool key is the whole target URL; (G2) the interceptor returns the error of the handler unchanged. (H1) getDestinationHostFromMetadata reads the dsthost key only; Not decided: message/metadata/trailer/status transparency (delegated to mwitkow/grpc-proxy and grpc-go).",
+		Explain: "gRPC proxy wiring (no test exercises it). Sites are found by ROLE, not by the name of the unexported function that holds them today: the interceptor is the function of package proxy with the grpc.StreamServerInterceptor parameters whose region calls route.Table.Lookup and the wrapped grpc.StreamHandler; the director is the function returning (context.Context, *grpc.ClientConn, error); the pool is the map whose elements are (structs around) *grpc.ClientConn; a pool key function is a repository function *route.Target -> string whose result is used as a key; the sweep is where that map is ranged over, the janitor the loop that runs a sweep per round; the server options are the grpc.ServerOption constructor calls anywhere in the repository. Branch facts are inherited through single-call-site helpers and into closures. (G1) the wrapped handler is called only where the lookup's target is known non-nil and its error nil (directly, or because a helper returns a nil error only together with a non-nil target); a status returned where the target is nil is codes.NotFound, one returned where the lookup error is non-nil codes.Internal, wherever the status is built; the stream handed on wraps a context.WithValue context and its Context() returns the stored context; (K1) the key (type and constant) and value type written by the interceptor's context.WithValue(ctx, key, target) are read and asserted in the director's region; (M1) the director builds metadata.NewOutgoingContext(ctx', md.Copy()) with md from metadata.FromIncomingContext(ctx'') of its own context, returns that context with a connection obtained from a pool getter keyed by the target read from ctx.Value; a return without connection carries an error; (W1) the options contain the proxy codec, UnknownServiceHandler(TransparentHandler(d)) with d denoting a director of package proxy, a stream interceptor that is or forwards to the interceptor, and receive/send limits from GRPCMaxRxMsgSize/GRPCMaxTxMsgSize (not swapped), each stored into an option slice; (L1) Table.Lookup is called on route.GetTable() with a request whose URL derives from StreamServerInfo.FullMethod and whose Host is the dsthost metadata value where exactly one is present, and with the configured picker/matcher; (H1) every metadata key on the backward slice of that Host is dsthost; (P1) every access of the pool map holds a lock (own or every caller's; write lock for updates) and every key is a range key, target.URL.String(), or a key function's result on all definitions; (P2) an insert is dominated, under the write lock, by a read of the same key and the surplus connection is closed; (P3) the janitor loop is paced, nothing sleeps/waits with the lock held, it is started by a go statement, entries are deleted synchronously on the edge where the table-membership test (predicate with either polarity, or a set of live keys) misses, and that test compares with pool keys; (P4) a key function returns Target.URL.String(); (G2) the handler's error reaches the interceptor's caller unchanged through every helper, wrapper closure and named result. Not decided: message/metadata/trailer/status transparency (delegated to mwitkow/grpc-proxy and grpc-go).",
 		Run:     runC16,
 		Trusted: []string{"mwitkow/grpc-proxy TransparentHandler forwards frames, metadata, trailers and status unchanged", "grpc-go honours codec, interceptor and size options"},
-		Mutants: []mutant{
+		Mutants: append([]mutant{
 			{Name: "authority used as destination host", File: "proxy/grpc_handler.go", Old: "\thosts := md[\"dsthost\"]\n", New: "\thosts := md[\"dsthost\"]\n\tif len(hosts) == 0 {\n\t\thosts = md[\":authority\"]\n\t}\n", Expect: "C16.H1"},
 
 			{Name: "call the handler when no target was found", File: "proxy/grpc_handler.go", Old: "\t\tlog.Println(\"[WARN] grpc: no route found for\", info.FullMethod)\n\t\treturn status.Error(codes.NotFound, \"no route found\")", New: "\t\tlog.Println(\"[WARN] grpc: no route found for\", info.FullMethod)\n\t\treturn handler(srv, stream)", Expect: "C16.G1"},
@@ -34,7 +34,7 @@ func init() {
 			{Name: "cleanup without pause", File: "proxy/grpc_handler.go", Old: "\t\tp.lock.Unlock()\n\t\ttime.Sleep(p.cleanupInterval)", New: "\t\tp.lock.Unlock()", Expect: "C16.P3"},
 			{Name: "lookup host taken from authority instead of dsthost", File: "proxy/grpc_handler.go", Old: "\thosts := md[\"dsthost\"]", New: "\thosts := md[\":authority\"]", Expect: "C16.L1"},
 			{Name: "benign: chained interceptor", File: "main.go", Old: "grpc.StreamInterceptor(proxyInterceptor.Stream),", New: "grpc.ChainStreamInterceptor(proxyInterceptor.Stream),", Expect: ""},
-		},
+		}, c16moreMutants...),
 	})
 }
 
@@ -48,7 +48,7 @@ func runC16(c *Ctx) {
 	runC16H1(c)
 }
 
-// grpcCode: v is status.Error(codes.X, ...) -> X's numeric value.
+// grpcStatusCode: v is status.Error(codes.X, ...) -> X's numeric value.
 func grpcStatusCode(v ssa.Value) (int64, bool) {
 	call, ok := v.(*ssa.Call)
 	if !ok {
@@ -61,39 +61,24 @@ func grpcStatusCode(v ssa.Value) (int64, bool) {
 	return constInt(call.Call.Args[0])
 }
 
+// ---- G1 / K1 ----------------------------------------------------------------------------------------------------------
+
 func runC16G1K1(c *Ctx) {
-	stream := c.method("proxy", "GrpcProxyInterceptor", "Stream")
-	lookup := c.method("proxy", "GrpcProxyInterceptor", "lookup")
-	if !c.need("C16.G1", stream, "proxy.GrpcProxyInterceptor.Stream") || !c.need("C16.G1", lookup, "proxy.GrpcProxyInterceptor.lookup") {
+	R := c16resolve(c)
+	stream := R.stream
+	if !c.need("C16.G1", stream, "the stream interceptor of package proxy (GrpcProxyInterceptor.Stream)") {
 		return
 	}
-	var lk *ssa.Call
-	eachInstr(stream, func(i ssa.Instruction) {
-		if call, ok := i.(*ssa.Call); ok && call.Call.StaticCallee() == lookup {
-			lk = call
-		}
-	})
-	if lk == nil {
-		c.undecided("C16.G1", "proxy.GrpcProxyInterceptor.Stream|lookup call", "the interceptor does not call its lookup")
+	if len(R.lookups) == 0 {
+		c.undecided("C16.G1", "proxy.GrpcProxyInterceptor.Stream|lookup call", "the interceptor does not look the route up (no call of route.Table.Lookup in its region)")
 		return
 	}
-	isTarget := func(v ssa.Value) bool { e, ok := v.(*ssa.Extract); return ok && e.Tuple == lk && e.Index == 0 }
-	isErr := func(v ssa.Value) bool { e, ok := v.(*ssa.Extract); return ok && e.Tuple == lk && e.Index == 1 }
-	var handlerParam *ssa.Parameter
-	for _, p := range stream.Params {
-		if typeStr(p.Type()) == "google.golang.org/grpc.StreamHandler" {
-			handlerParam = p
-		}
-	}
-	nH := 0
-	eachInstr(stream, func(i ssa.Instruction) {
-		call, ok := i.(*ssa.Call)
-		if !ok || call.Call.Value != handlerParam {
-			return
-		}
-		nH++
-		c.check("C16.G1", "proxy.GrpcProxyInterceptor.Stream|handler only with a target and without lookup error", i.Pos(),
-			knownNonNil(i.Block(), isTarget) && knownNil(i.Block(), isErr),
+	needErr := R.hasLookupHelper()
+	for _, call := range R.handlers {
+		paired := R.targetByPairedResult(call.Block(), needErr)
+		okT := paired || c16knownNonNil(call.Block(), R.isTarget)
+		okE := paired || !needErr || c16knownNil(call.Block(), R.isLookupErr)
+		c.check("C16.G1", "proxy.GrpcProxyInterceptor.Stream|handler only with a target and without lookup error", call.Pos(), okT && okE,
 			"the proxying handler must run only on the edge where the lookup succeeded and found a target; otherwise the director runs without a target (or a backend is contacted for a call that has no route)")
 		// the stream handed on carries the context with the target
 		wrapped := false
@@ -103,144 +88,315 @@ func runC16G1K1(c *Ctx) {
 				return ok && wv != nil
 			})
 		}
-		c.check("C16.G1", "proxy.GrpcProxyInterceptor.Stream|handler receives the stream whose context carries the target", i.Pos(), wrapped,
+		c.check("C16.G1", "proxy.GrpcProxyInterceptor.Stream|handler receives the stream whose context carries the target", call.Pos(), wrapped,
 			"the stream given to the handler must wrap a context built with context.WithValue(ctx, key, target); with the original stream the director finds no target")
-	})
-	c.atLeast("C16.G1", "calls of the wrapped handler", nH, 1)
-	// status codes on the two failure edges
-	sawNotFound, sawInternal := false, false
-	eachInstr(stream, func(i ssa.Instruction) {
-		r, ok := i.(*ssa.Return)
-		if !ok || len(r.Results) != 1 {
-			return
-		}
-		code, isStatus := grpcStatusCode(r.Results[0])
-		if !isStatus {
-			return
-		}
-		switch {
-		case knownNil(r.Block(), isTarget):
-			sawNotFound = true
-			c.check("C16.G1", "proxy.GrpcProxyInterceptor.Stream|no route => NotFound", r.Pos(), code == 5, "a call without a matching route must fail with codes.NotFound")
-		case knownNonNil(r.Block(), isErr):
-			sawInternal = true
-			c.check("C16.G1", "proxy.GrpcProxyInterceptor.Stream|lookup error => Internal", r.Pos(), code == 13, "a failing lookup must be reported as codes.Internal")
-		}
-	})
-	c.check("C16.G1", "proxy.GrpcProxyInterceptor.Stream|both failure edges return a status", stream.Pos(), sawNotFound && sawInternal, "the nil-target and the lookup-error edge must each return a gRPC status error")
-
-	// K1
-	var wrKey, wrVal types.Type
-	eachInstr(stream, func(i ssa.Instruction) {
-		if call, ok := i.(*ssa.Call); ok && calleeName(&call.Call) == "context.WithValue" {
-			wrKey = stripIface(call.Call.Args[1]).Type()
-			wrVal = stripIface(call.Call.Args[2]).Type()
-		}
-	})
-	dir := c.fn("proxy", "GetGRPCDirector")
-	if !c.need("C16.K1", dir, "proxy.GetGRPCDirector") {
-		return
 	}
-	var rdKey, rdAssert types.Type
-	for _, f := range withAnon(dir) {
+	c.atLeast("C16.G1", "calls of the wrapped handler", len(R.handlers), 1)
+	runC16G1Wrapper(c, R)
+
+	// status codes on the two failure edges: every status error returned where the target is known to be nil is NotFound,
+	// every one returned where the lookup error is known to be non-nil is Internal — wherever the status is built.
+	sawNotFound, sawInternal := false, false
+	looseNotFound, looseInternal := false, false
+	for _, f := range R.sreg {
 		eachInstr(f, func(i ssa.Instruction) {
-			call, ok := i.(*ssa.Call)
-			if !ok || !call.Call.IsInvoke() || call.Call.Method.Name() != "Value" {
+			r, ok := i.(*ssa.Return)
+			if !ok {
 				return
 			}
-			rdKey = stripIface(call.Call.Args[0]).Type()
-			for _, r := range *call.Referrers() {
-				if ta, ok := r.(*ssa.TypeAssert); ok {
-					rdAssert = ta.AssertedType
+			var res ssa.Value
+			for _, x := range r.Results {
+				if c16isErrT(x.Type()) {
+					res = x
+				}
+			}
+			if res == nil {
+				return
+			}
+			defs := defsOf(res)
+			for _, d := range defs {
+				codes := c16statusCodes(d.Val)
+				if len(codes) == 0 {
+					continue
+				}
+				blk := d.Block
+				if blk == nil || (len(defs) == 1 && d.Val == res) {
+					blk = r.Block()
+				}
+				all := func(want int64) bool {
+					for _, k := range codes {
+						if k != want {
+							return false
+						}
+					}
+					return true
+				}
+				switch {
+				case all(5) && !c16knownNonNil(blk, R.isTarget):
+					looseNotFound = true
+				case all(13) && !c16knownNil(blk, R.isLookupErr):
+					looseInternal = true
+				}
+				switch {
+				case c16knownNil(blk, R.isTarget):
+					sawNotFound = true
+					c.check("C16.G1", "proxy.GrpcProxyInterceptor.Stream|no route => NotFound", r.Pos(), all(5), "a call without a matching route must fail with codes.NotFound")
+				case c16knownNonNil(blk, R.isLookupErr):
+					sawInternal = true
+					c.check("C16.G1", "proxy.GrpcProxyInterceptor.Stream|lookup error => Internal", r.Pos(), all(13), "a failing lookup must be reported as codes.Internal")
 				}
 			}
 		})
 	}
-	ok := wrKey != nil && rdKey != nil && types.Identical(wrKey, rdKey) && wrVal != nil && rdAssert != nil && types.Identical(wrVal, rdAssert)
-	c.check("C16.K1", "proxy|context key written by the interceptor is the one the director reads", stream.Pos(), ok,
-		"interceptor stores the target under one key type and the director reads it under another (or asserts another type): the director never sees a target and every call fails")
+	// where the guards are written so that the branch facts do not name the failing value (`if err == nil && target != nil
+	// { proxy } ... else ...`), a NotFound / Internal status returned off the proxying edge stands for the edge
+	c.check("C16.G1", "proxy.GrpcProxyInterceptor.Stream|both failure edges return a status", stream.Pos(), (sawNotFound || looseNotFound) && (sawInternal || looseInternal || !needErr), "the nil-target and the lookup-error edge must each return a gRPC status error")
+
+	// K1: what the interceptor writes into the context, the director reads
+	type wr struct {
+		key, val ssa.Value
+		pos      token.Pos
+	}
+	var writes []wr
+	eachInstrOf(R.sreg, func(_ *ssa.Function, i ssa.Instruction) {
+		call, ok := i.(*ssa.Call)
+		if !ok || calleeName(&call.Call) != "context.WithValue" {
+			return
+		}
+		val := stripIface(call.Call.Args[2])
+		if c16isTargetT(val.Type()) || R.isTarget(val) {
+			writes = append(writes, wr{stripIface(call.Call.Args[1]), val, call.Pos()})
+		}
+	})
+	type rd struct {
+		key    ssa.Value
+		assert []types.Type
+	}
+	var reads []rd
+	if len(R.directors) == 0 {
+		c.undecided("C16.K1", "anchor|proxy director", "no function of package proxy returns (context.Context, *grpc.ClientConn, error)")
+		return
+	}
+	eachInstrOf(c.region(R.directors...), func(_ *ssa.Function, i ssa.Instruction) {
+		v, ok := i.(ssa.Value)
+		if !ok {
+			return
+		}
+		call := c16ctxValueCall(v)
+		if call == nil {
+			return
+		}
+		x := rd{key: stripIface(call.Call.Args[0])}
+		for _, r := range *call.Referrers() {
+			if ta, ok := r.(*ssa.TypeAssert); ok {
+				x.assert = append(x.assert, ta.AssertedType)
+			}
+		}
+		reads = append(reads, x)
+	})
+	sameKey := func(a, b ssa.Value) bool {
+		if !types.Identical(a.Type(), b.Type()) {
+			return false
+		}
+		ka, isA := a.(*ssa.Const)
+		kb, isB := b.(*ssa.Const)
+		if isA && isB && ka.Value != nil && kb.Value != nil {
+			return ka.Value.ExactString() == kb.Value.ExactString()
+		}
+		return true
+	}
+	for _, w := range writes {
+		ok := false
+		for _, r := range reads {
+			if !sameKey(w.key, r.key) {
+				continue
+			}
+			for _, at := range r.assert {
+				if types.Identical(at, w.val.Type()) {
+					ok = true
+				}
+			}
+		}
+		c.check("C16.K1", "proxy|context key written by the interceptor is the one the director reads", w.pos, ok,
+			"interceptor stores the target under one key type and the director reads it under another (or asserts another type): the director never sees a target and every call fails")
+	}
+	c.atLeast("C16.K1", "context.WithValue(ctx, key, target) in the interceptor", len(writes), 1)
+}
+
+// ---- M1 -----------------------------------------------------------------------------------------------------------------
+
+// c16poolGetter: call is a synchronous call of a repository function that hands out a *grpc.ClientConn and consults the
+// connection table (today (*grpcConnectionPool).Get).
+func c16poolGetter(call *ssa.Call) bool {
+	sc := call.Call.StaticCallee()
+	if sc == nil || !isRepoFn(sc) {
+		return false
+	}
+	res, has := sc.Signature.Results(), false
+	for k := 0; k < res.Len(); k++ {
+		has = has || c16isConnT(res.At(k).Type())
+	}
+	if !has {
+		return false
+	}
+	isRead := func(i ssa.Instruction) bool {
+		lk, ok := i.(*ssa.Lookup)
+		return ok && c16isConnMap(lk.X)
+	}
+	if mayExec(unwrap(sc), isRead, 0) {
+		return true
+	}
+	// the read may sit in a closure handed to a locking wrapper
+	var c *Ctx // region does not use its receiver
+	for _, f := range c.region(unwrap(sc)) {
+		if fnHas(f, isRead) {
+			return true
+		}
+	}
+	return false
 }
 
 func runC16M1(c *Ctx) {
-	dir := c.fn("proxy", "GetGRPCDirector")
-	if dir == nil || len(dir.AnonFuncs) == 0 {
-		c.undecided("C16.M1", "proxy.GetGRPCDirector|director closure", "not found")
+	R := c16resolve(c)
+	if len(R.directors) == 0 {
+		c.undecided("C16.M1", "proxy.GetGRPCDirector|director closure", "no function of package proxy returns (context.Context, *grpc.ClientConn, error)")
 		return
 	}
-	d := dir.AnonFuncs[0]
-	var ctxParam *ssa.Parameter
-	for _, p := range d.Params {
-		if typeStr(p.Type()) == "context.Context" {
-			ctxParam = p
-		}
-	}
-	var out *ssa.Call
-	eachInstr(d, func(i ssa.Instruction) {
-		if call, ok := i.(*ssa.Call); ok && calleeName(&call.Call) == "google.golang.org/grpc/metadata.NewOutgoingContext" {
-			out = call
-		}
-	})
-	if out == nil {
-		c.check("C16.M1", "proxy.GetGRPCDirector$1|outgoing context", d.Pos(), false, "the director must build the outgoing context with metadata.NewOutgoingContext")
-		return
-	}
-	okCtx := out.Call.Args[0] == ctxParam
-	okMD := false
-	if cp, ok := out.Call.Args[1].(*ssa.Call); ok && calleeName(&cp.Call) == "(google.golang.org/grpc/metadata.MD).Copy" {
-		okMD = derives(cp.Call.Args[0], func(v ssa.Value) bool {
-			in, ok := isCallTo(v, "google.golang.org/grpc/metadata.FromIncomingContext")
-			return ok && in.Call.Args[0] == ctxParam
-		})
-	}
-	c.check("C16.M1", "proxy.GetGRPCDirector$1|outgoing metadata is a copy of the incoming metadata of the same call", out.Pos(), okCtx && okMD,
-		"the backend must receive the caller's metadata: NewOutgoingContext(ctx, md.Copy()) with md = FromIncomingContext(ctx)")
-	// connection from the pool for the context's target; returned context is the outgoing one
-	nRet := 0
-	eachInstr(d, func(i ssa.Instruction) {
-		r, ok := i.(*ssa.Return)
-		if !ok || len(r.Results) != 3 {
-			return
-		}
-		nRet++
-		if isNilConst(r.Results[1]) {
-			c.check("C16.M1", "proxy.GetGRPCDirector$1|no connection => error", r.Pos(), !isNilConst(r.Results[2]), "a director return without a connection must carry an error")
-			return
-		}
-		fromPool := derives(r.Results[1], func(v ssa.Value) bool {
-			call, ok := v.(*ssa.Call)
-			if !ok || call.Call.StaticCallee() == nil || call.Call.StaticCallee().Name() != "Get" || !namedIs(call.Call.Args[0].Type(), "proxy.grpcConnectionPool") {
-				return false
+	dreg := c.region(R.directors...)
+	var ctxParams []*ssa.Parameter
+	for _, d := range R.directors {
+		for _, p := range d.Params {
+			if c16isCtxT(p.Type()) {
+				ctxParams = append(ctxParams, p)
 			}
-			// keyed by the context's target
-			return derives(call.Call.Args[2], func(x ssa.Value) bool {
-				vc, ok := x.(*ssa.Call)
-				return ok && vc.Call.IsInvoke() && vc.Call.Method.Name() == "Value"
-			})
-		})
-		c.check("C16.M1", "proxy.GetGRPCDirector$1|connection from the pool for the context's target", r.Pos(), fromPool && r.Results[0] == out,
-			"the director must return the outgoing context and the pooled connection of the target the interceptor chose")
+		}
+	}
+	var outs []*ssa.Call
+	eachInstrOf(dreg, func(_ *ssa.Function, i ssa.Instruction) {
+		if call, ok := i.(*ssa.Call); ok && calleeName(&call.Call) == c16mdPkg+".NewOutgoingContext" {
+			outs = append(outs, call)
+		}
 	})
-	c.atLeast("C16.M1", "director returns", nRet, 2)
+	if len(outs) == 0 {
+		c.check("C16.M1", "proxy.GetGRPCDirector$1|outgoing context", R.directors[0].Pos(), false, "the director must build the outgoing context with metadata.NewOutgoingContext")
+		return
+	}
+	fromIncoming := func(v ssa.Value) bool {
+		return derives(v, func(x ssa.Value) bool {
+			in, ok := isCallTo(x, c16mdPkg+".FromIncomingContext")
+			return ok && c16fromCtx(in.Call.Args[0], ctxParams)
+		})
+	}
+	for _, out := range outs {
+		okCtx := c16fromCtx(out.Call.Args[0], ctxParams)
+		okMD := derives(out.Call.Args[1], func(x ssa.Value) bool {
+			if cp, ok := isCallTo(x, "("+c16mdPkg+".MD).Copy"); ok {
+				return fromIncoming(cp.Call.Args[0])
+			}
+			if j, ok := isCallTo(x, c16mdPkg+".Join"); ok {
+				for _, a := range j.Call.Args {
+					if fromIncoming(a) {
+						return true
+					}
+				}
+			}
+			return false
+		})
+		c.check("C16.M1", "proxy.GetGRPCDirector$1|outgoing metadata is a copy of the incoming metadata of the same call", out.Pos(), okCtx && okMD,
+			"the backend must receive the caller's metadata: NewOutgoingContext(ctx, md.Copy()) with md = FromIncomingContext(ctx)")
+	}
+	isOut := func(v ssa.Value) bool {
+		return derives(v, func(x ssa.Value) bool {
+			for _, o := range outs {
+				if x == o {
+					return true
+				}
+			}
+			return false
+		})
+	}
+	// connection from the pool for the context's target; returned context is the outgoing one
+	nPooled := 0
+	for _, f := range dreg {
+		if !c16isDirectorFn(f) {
+			continue
+		}
+		eachInstr(f, func(i ssa.Instruction) {
+			r, ok := i.(*ssa.Return)
+			if !ok || len(r.Results) != 3 {
+				return
+			}
+			// a return that only forwards the triple of another director-shaped function is judged there
+			if e, isE := r.Results[1].(*ssa.Extract); isE {
+				if call, isC := e.Tuple.(*ssa.Call); isC {
+					if sc := call.Call.StaticCallee(); sc != nil && c16isDirectorFn(sc) && c16inFns(dreg, unwrap(sc)) {
+						return
+					}
+				}
+			}
+			if isNilConst(r.Results[1]) {
+				c.check("C16.M1", "proxy.GetGRPCDirector$1|no connection => error", r.Pos(), !isNilConst(r.Results[2]), "a director return without a connection must carry an error")
+				return
+			}
+			fromPool := derives(r.Results[1], func(v ssa.Value) bool {
+				call, ok := v.(*ssa.Call)
+				if !ok || !c16poolGetter(call) {
+					return false
+				}
+				// keyed by the context's target
+				for _, a := range call.Call.Args {
+					if c16isTargetT(a.Type()) && derives(a, func(x ssa.Value) bool { return c16ctxValueCall(x) != nil }) {
+						return true
+					}
+				}
+				return false
+			})
+			if fromPool {
+				nPooled++
+			}
+			c.check("C16.M1", "proxy.GetGRPCDirector$1|connection from the pool for the context's target", r.Pos(), fromPool && isOut(r.Results[0]),
+				"the director must return the outgoing context and the pooled connection of the target the interceptor chose")
+		})
+	}
+	c.atLeast("C16.M1", "director returns handing out a pooled connection", nPooled, 1)
 }
 
+// ---- W1 -----------------------------------------------------------------------------------------------------------------
+
 func runC16W1(c *Ctx) {
-	np := c.fn("main", "newGrpcProxy")
-	if !c.need("C16.W1", np, "main.newGrpcProxy") {
+	R := c16resolve(c)
+	// the server options are found by what they are (calls of grpc.ServerOption constructors anywhere in the repository), not
+	// by the function that assembles them today (main.newGrpcProxy)
+	opts := map[string][]*ssa.Call{}
+	var anchor *ssa.Function
+	for _, f := range c.AllFns {
+		ff := f
+		eachInstr(f, func(i ssa.Instruction) {
+			call, ok := i.(*ssa.Call)
+			if !ok {
+				return
+			}
+			n := calleeName(&call.Call)
+			if !strings.HasPrefix(n, c16grpc+".") {
+				return
+			}
+			if res := call.Call.Signature().Results(); res.Len() != 1 || typeStr(res.At(0).Type()) != c16grpc+".ServerOption" {
+				return
+			}
+			opts[strings.TrimPrefix(n, c16grpc+".")] = append(opts[strings.TrimPrefix(n, c16grpc+".")], call)
+			if anchor == nil || strings.HasSuffix(n, ".UnknownServiceHandler") {
+				anchor = ff
+			}
+		})
+	}
+	if anchor == nil {
+		c.undecided("C16.W1", "anchor|main.newGrpcProxy", "no function of the repository builds a grpc.ServerOption")
 		return
 	}
-	opts := map[string]*ssa.Call{}
-	eachInstr(np, func(i ssa.Instruction) {
-		if call, ok := i.(*ssa.Call); ok {
-			n := calleeName(&call.Call)
-			if strings.HasPrefix(n, "google.golang.org/grpc.") {
-				opts[strings.TrimPrefix(n, "google.golang.org/grpc.")] = call
-			}
-		}
-	})
-	// every option must end up in the returned slice
-	inResult := func(call *ssa.Call) bool {
+	// every option must end up in a slice of options (the literal, an append, a variadic argument)
+	used := func(call *ssa.Call) bool {
 		ok := false
-		eachInstr(np, func(i ssa.Instruction) {
+		eachInstr(call.Parent(), func(i ssa.Instruction) {
 			if st, isSt := i.(*ssa.Store); isSt && st.Val == call {
 				if _, isIA := st.Addr.(*ssa.IndexAddr); isIA {
 					ok = true
@@ -249,267 +405,173 @@ func runC16W1(c *Ctx) {
 		})
 		return ok
 	}
-	codec := opts["CustomCodec"]
-	if codec == nil {
-		codec = opts["ForceServerCodec"]
-	}
-	okCodec := codec != nil && inResult(codec)
-	if okCodec {
-		_, okCodec = isCallTo(codec.Call.Args[0], "github.com/mwitkow/grpc-proxy/proxy.Codec")
-	}
-	c.check("C16.W1", "main.newGrpcProxy|proxy codec installed", np.Pos(), okCodec, "without grpc_proxy.Codec() the server tries to unmarshal frames it must forward opaquely")
-	ush := opts["UnknownServiceHandler"]
-	okUSH := ush != nil && inResult(ush) && derives(ush.Call.Args[0], func(v ssa.Value) bool {
-		th, ok := isCallTo(v, "github.com/mwitkow/grpc-proxy/proxy.TransparentHandler")
-		if !ok {
-			return false
-		}
-		return derives(th.Call.Args[0], func(x ssa.Value) bool { _, isDir := isCallTo(x, repoMod+"/proxy.GetGRPCDirector"); return isDir })
-	})
-	c.check("C16.W1", "main.newGrpcProxy|UnknownServiceHandler(TransparentHandler(director))", np.Pos(), okUSH, "every method must be handled by the transparent handler driven by fabio's director")
-	si := opts["StreamInterceptor"]
-	if si == nil {
-		si = opts["ChainStreamInterceptor"]
-	}
-	okSI := si != nil && inResult(si) && derives(si.Call.Args[0], func(v ssa.Value) bool {
-		mc, ok := v.(*ssa.MakeClosure)
-		if !ok {
-			return false
-		}
-		t := unwrap(mc.Fn.(*ssa.Function))
-		return t.Name() == "Stream" && t.Signature.Recv() != nil && namedIs(t.Signature.Recv().Type(), "proxy.GrpcProxyInterceptor")
-	})
-	c.check("C16.W1", "main.newGrpcProxy|stream interceptor is GrpcProxyInterceptor.Stream", np.Pos(), okSI, "without the interceptor no route lookup happens and every call fails in the director with 'no route found'")
-	for _, lim := range []struct{ opt, field string }{{"MaxRecvMsgSize", "GRPCMaxRxMsgSize"}, {"MaxSendMsgSize", "GRPCMaxTxMsgSize"}} {
-		call := opts[lim.opt]
-		ok := call != nil && inResult(call)
-		if ok {
-			_, ok = fieldOf(call.Call.Args[0], "config.Proxy", lim.field)
-		}
-		c.check("C16.W1", "main.newGrpcProxy|"+lim.opt+" from "+lim.field, np.Pos(), ok, "grpc."+lim.opt+" must be given cfg.Proxy."+lim.field)
-	}
-}
-
-func runC16L1(c *Ctx) {
-	lookup := c.method("proxy", "GrpcProxyInterceptor", "lookup")
-	if lookup == nil {
-		return
-	}
-	tl := c.method("route", "Table", "Lookup")
-	var call *ssa.Call
-	eachInstr(lookup, func(i ssa.Instruction) {
-		if cl, ok := i.(*ssa.Call); ok && cl.Call.StaticCallee() == tl {
-			call = cl
-		}
-	})
-	if call == nil {
-		c.check("C16.L1", "proxy.GrpcProxyInterceptor.lookup|Table.Lookup", lookup.Pos(), false, "the gRPC lookup must go through route.Table.Lookup")
-		return
-	}
-	// receiver is GetTable()
-	_, fromGet := isCallTo(call.Call.Args[0], repoMod+"/route.GetTable")
-	c.check("C16.L1", "proxy.GrpcProxyInterceptor.lookup|looks up the active table", call.Pos(), fromGet, "the lookup must use route.GetTable()")
-	// the synthetic request: URL from ParseRequestURI(fullMethodName param), Host from the dsthost metadata
-	req := call.Call.Args[1]
-	alloc, _ := req.(*ssa.Alloc)
-	if alloc == nil {
-		c.undecided("C16.L1", "proxy.GrpcProxyInterceptor.lookup|synthetic request", "request is not a local literal")
-		return
-	}
-	fs := fieldStores(alloc)
-	var method *ssa.Parameter
-	for _, p := range lookup.Params {
-		if typeStr(p.Type()) == "string" {
-			method = p
-		}
-	}
-	okURL := false
-	for _, st := range fs["URL"] {
-		okURL = derives(st.Val, func(v ssa.Value) bool {
-			pc, ok := isCallTo(v, "net/url.ParseRequestURI", "net/url.Parse")
-			return ok && pc.Call.Args[0] == method
-		})
-	}
-	c.check("C16.L1", "proxy.GrpcProxyInterceptor.lookup|path is the full method name", call.Pos(), okURL, "the route is matched against the call's full method (/package.Service/Method)")
-	okHost := false
-	for _, st := range fs["Host"] {
-		okHost = derivesDstHost(c, st.Val)
-	}
-	c.check("C16.L1", "proxy.GrpcProxyInterceptor.lookup|host is the single dsthost metadata value", call.Pos(), okHost, "the host used for routing must be the 'dsthost' metadata value (only when exactly one is present)")
-	// picker / matcher from config
-	okPick := derives(call.Call.Args[3], func(v ssa.Value) bool { _, ok := fieldOf(v, "config.Proxy", "Strategy"); return ok })
-	okMatch := derives(call.Call.Args[4], func(v ssa.Value) bool { _, ok := fieldOf(v, "config.Proxy", "Matcher"); return ok })
-	c.check("C16.L1", "proxy.GrpcProxyInterceptor.lookup|configured strategy and matcher", call.Pos(), okPick && okMatch, "the gRPC lookup must use route.Picker[cfg.Proxy.Strategy] and route.Matcher[cfg.Proxy.Matcher]")
-}
-
-func derivesDstHost(c *Ctx, v ssa.Value) bool {
-	// through the helper method: result of getDestinationHostFromMetadata(md)
-	call, ok := v.(*ssa.Call)
-	if ok && call.Call.StaticCallee() != nil && isRepoFn(call.Call.StaticCallee()) {
-		f := call.Call.StaticCallee()
-		found, single := false, false
-		eachInstr(f, func(i ssa.Instruction) {
-			if lk, ok := i.(*ssa.Lookup); ok {
-				if k, ok := constString(lk.Index); ok && k == "dsthost" {
-					found = true
-				}
-			}
-			if b, ok := i.(*ssa.BinOp); ok && b.Op == token.EQL {
-				if n, ok := constInt(b.Y); ok && n == 1 {
-					if lc, ok := b.X.(*ssa.Call); ok && calleeName(&lc.Call) == "builtin.len" {
-						single = true
-					}
-				}
-			}
-		})
-		return found && single
-	}
-	return derives(v, func(x ssa.Value) bool {
-		if lk, ok := x.(*ssa.Lookup); ok {
-			k, ok := constString(lk.Index)
-			return ok && k == "dsthost"
-		}
-		return false
-	})
-}
-
-func runC16P(c *Ctx) {
-	sp := c.spkg("proxy")
-	keyFn := c.fn("proxy", "makeGRPCTargetKey")
-	if !c.need("C16.P1", keyFn, "proxy.makeGRPCTargetKey") {
-		return
-	}
-	isPoolMap := func(v ssa.Value) bool { _, ok := fieldOf(v, "proxy.grpcConnectionPool", "connections"); return ok }
-	okKey := func(k ssa.Value) bool {
-		if call, ok := k.(*ssa.Call); ok && call.Call.StaticCallee() == keyFn {
-			return true
-		}
-		// a key obtained by ranging over the pool map
-		if e, ok := k.(*ssa.Extract); ok {
-			if nx, ok := e.Tuple.(*ssa.Next); ok {
-				if rg, ok := nx.Iter.(*ssa.Range); ok && isPoolMap(rg.X) {
+	some := func(names []string, pred func(*ssa.Call) bool) bool {
+		for _, n := range names {
+			for _, call := range opts[n] {
+				if used(call) && pred(call) {
 					return true
 				}
 			}
 		}
-		// a local that only ever holds such a key
-		for _, d := range defsOf(k) {
-			if d.Val == k {
-				return false
-			}
-			if call, ok := d.Val.(*ssa.Call); !ok || call.Call.StaticCallee() != keyFn {
-				return false
-			}
-		}
-		return true
+		return false
 	}
-	n := 0
-	for _, f := range c.AllFns {
-		if rootPkg(f) != sp {
-			continue
-		}
-		eachInstr(f, func(i ssa.Instruction) {
-			var m, k ssa.Value
-			write := false
-			switch x := i.(type) {
-			case *ssa.Lookup:
-				m, k = x.X, x.Index
-			case *ssa.MapUpdate:
-				m, k, write = x.Map, x.Key, true
-			case *ssa.Range:
-				m = x.X
-			case *ssa.Call:
-				if calleeName(&x.Call) == "builtin.delete" {
-					m, k, write = x.Call.Args[0], x.Call.Args[1], true
-				}
-			}
-			if m == nil || !isPoolMap(m) {
-				return
-			}
-			// constructor initialisation of a fresh pool is not shared yet
-			if fa, ok := stripLoad(m).(*ssa.FieldAddr); ok {
-				if _, isAlloc := fa.X.(*ssa.Alloc); isAlloc {
-					return
-				}
-			}
-			n++
-			held := len(heldAt(i, write)) > 0
-			c.check("C16.P1", fnKey(f)+"|pool map accessed under its lock", i.Pos(), held, "grpcConnectionPool.connections is read and written by concurrent calls and by cleanup(); every access must hold p.lock (write lock for updates)")
-			if k != nil {
-				c.check("C16.P1", fnKey(f)+"|pool key is makeGRPCTargetKey(target)", i.Pos(), okKey(k), "every key of the pool map must come from makeGRPCTargetKey (or from ranging over the map): a differently built key makes Get miss what Set stored, so every call dials again, and cleanup never finds the entry")
-			}
+	okCodec := some([]string{"CustomCodec", "ForceServerCodec"}, func(call *ssa.Call) bool {
+		return derives(call.Call.Args[0], func(v ssa.Value) bool {
+			_, ok := isCallTo(v, "github.com/mwitkow/grpc-proxy/proxy.Codec")
+			return ok
 		})
-	}
-	c.atLeast("C16.P1", "accesses to the pool map", n, 4)
-
-	// P2: the function that inserts re-reads the same key under the same acquisition, and closes the loser
-	nIns := 0
-	for _, f := range c.AllFns {
-		if rootPkg(f) != sp {
-			continue
-		}
-		eachInstr(f, func(i ssa.Instruction) {
-			mu, ok := i.(*ssa.MapUpdate)
-			if !ok || !isPoolMap(mu.Map) {
-				return
+	})
+	c.check("C16.W1", "main.newGrpcProxy|proxy codec installed", anchor.Pos(), okCodec, "without grpc_proxy.Codec() the server tries to unmarshal frames it must forward opaquely")
+	okUSH := some([]string{"UnknownServiceHandler"}, func(call *ssa.Call) bool {
+		return derives(call.Call.Args[0], func(v ssa.Value) bool {
+			th, ok := isCallTo(v, "github.com/mwitkow/grpc-proxy/proxy.TransparentHandler")
+			if !ok {
+				return false
 			}
-			nIns++
-			rechecked := false
-			eachInstr(f, func(j ssa.Instruction) {
-				if lk, ok := j.(*ssa.Lookup); ok && isPoolMap(lk.X) && dominatesInstr(j, i) && len(heldAt(j, true)) > 0 {
-					if lk.Index == mu.Key || accessPath(lk.Index) == accessPath(mu.Key) {
-						rechecked = true
+			// driven by fabio's director: the argument denotes a director-shaped function of package proxy
+			return derives(th.Call.Args[0], func(x ssa.Value) bool {
+				for _, f := range funcsOf(x) {
+					if c16inFns(R.directors, f) {
+						return true
 					}
 				}
+				return false
 			})
-			closes := false
-			eachInstr(f, func(j ssa.Instruction) {
-				if cc := callCommon(j); cc != nil && calleeName(cc) == "(*google.golang.org/grpc.ClientConn).Close" {
-					closes = true
-				}
-			})
-			c.check("C16.P2", fnKey(f)+"|insert re-checks the pool under the write lock and closes the surplus connection", i.Pos(), rechecked && closes,
-				"Get drops the read lock before dialling; two first calls to one backend both dial, and an unconditional insert overwrites the first connection, which is then never closed (leak) — the insert must look the key up again under the write lock and close the connection that lost")
 		})
+	})
+	c.check("C16.W1", "main.newGrpcProxy|UnknownServiceHandler(TransparentHandler(director))", anchor.Pos(), okUSH, "every method must be handled by the transparent handler driven by fabio's director")
+	okSI := R.stream != nil && some([]string{"StreamInterceptor", "ChainStreamInterceptor"}, func(call *ssa.Call) bool {
+		return derives(call.Call.Args[0], func(v ssa.Value) bool {
+			switch v.(type) {
+			case *ssa.MakeClosure, *ssa.Function:
+			default:
+				return false
+			}
+			for _, f := range funcsOf(v) {
+				if c16reaches(f, R.stream) {
+					return true
+				}
+			}
+			return false
+		})
+	})
+	c.check("C16.W1", "main.newGrpcProxy|stream interceptor is GrpcProxyInterceptor.Stream", anchor.Pos(), okSI, "without the interceptor no route lookup happens and every call fails in the director with 'no route found'")
+	for _, lim := range []struct{ opt, field string }{{"MaxRecvMsgSize", "GRPCMaxRxMsgSize"}, {"MaxSendMsgSize", "GRPCMaxTxMsgSize"}} {
+		field := lim.field
+		ok := some([]string{lim.opt}, func(call *ssa.Call) bool {
+			return derives(call.Call.Args[0], func(v ssa.Value) bool { _, is := fieldOf(v, "config.Proxy", field); return is })
+		})
+		// ... and from nothing else: the other limit must not flow into this option
+		for _, call := range opts[lim.opt] {
+			for _, other := range []string{"GRPCMaxRxMsgSize", "GRPCMaxTxMsgSize"} {
+				o := other
+				if o != field && derives(call.Call.Args[0], func(v ssa.Value) bool { _, is := fieldOf(v, "config.Proxy", o); return is }) {
+					ok = false
+				}
+			}
+		}
+		c.check("C16.W1", "main.newGrpcProxy|"+lim.opt+" from "+lim.field, anchor.Pos(), ok, "grpc."+lim.opt+" must be given cfg.Proxy."+lim.field)
 	}
-	c.atLeast("C16.P2", "inserts into the pool map", nIns, 1)
+}
 
-	// P3
-	cleanup := c.method("proxy", "grpcConnectionPool", "cleanup")
-	if !c.need("C16.P3", cleanup, "proxy.grpcConnectionPool.cleanup") {
+// ---- L1 -----------------------------------------------------------------------------------------------------------------
+
+// c16mdReads collects, on the backward slice of v, the reads of grpc metadata by key (md[k], md.Get(k)) and the
+// element accesses of the value lists read.
+type c16mdRead struct {
+	key   string
+	known bool
+	pos   token.Pos
+	at    ssa.Instruction
+}
+
+func c16mdReads(v ssa.Value) (reads []c16mdRead, elems []*ssa.IndexAddr) {
+	derives(v, func(x ssa.Value) bool {
+		switch y := x.(type) {
+		case *ssa.Lookup:
+			if c16isMDT(y.X.Type()) {
+				k, ok := constString(y.Index)
+				reads = append(reads, c16mdRead{k, ok, y.Pos(), y})
+			}
+		case *ssa.Call:
+			if n := calleeName(&y.Call); strings.HasSuffix(n, "metadata.MD).Get") || n == c16mdPkg+".ValueFromIncomingContext" {
+				k, ok := constString(y.Call.Args[len(y.Call.Args)-1])
+				reads = append(reads, c16mdRead{k, ok, y.Pos(), y})
+			}
+		case *ssa.IndexAddr:
+			if s, ok := y.X.Type().Underlying().(*types.Slice); ok && typeStr(s.Elem()) == "string" {
+				elems = append(elems, y)
+			}
+		}
+		return false
+	})
+	return
+}
+
+func runC16L1(c *Ctx) {
+	R := c16resolve(c)
+	if R.stream == nil {
 		return
 	}
-	for _, l := range condLessLoops(cleanup) {
-		b := spinCycle(l)
-		c.check("C16.P3", "proxy.(*grpcConnectionPool).cleanup|loop paced", l.Head.Instrs[0].Pos(), b == nil, "the cleanup loop must sleep between sweeps")
+	if len(R.lookups) == 0 {
+		c.check("C16.L1", "proxy.GrpcProxyInterceptor.lookup|Table.Lookup", R.stream.Pos(), false, "the gRPC lookup must go through route.Table.Lookup")
+		return
 	}
-	eachInstr(cleanup, func(i ssa.Instruction) {
-		cc := callCommon(i)
-		if cc == nil || calleeName(cc) != "time.Sleep" {
-			return
+	isFullMethod := func(v ssa.Value) bool {
+		_, ok := fieldOf(v, c16grpc+".StreamServerInfo", "FullMethod")
+		return ok
+	}
+	for _, call := range R.lookups {
+		// receiver is GetTable()
+		fromGet := derives(call.Call.Args[0], func(v ssa.Value) bool { _, ok := isCallTo(v, repoMod+"/route.GetTable"); return ok })
+		c.check("C16.L1", "proxy.GrpcProxyInterceptor.lookup|looks up the active table", call.Pos(), fromGet, "the lookup must use route.GetTable()")
+		// the synthetic request: URL from the call's full method, Host from the dsthost metadata
+		allocs := c16allocsOf(call.Call.Args[1], "http.Request")
+		if len(allocs) == 0 {
+			c.undecided("C16.L1", "proxy.GrpcProxyInterceptor.lookup|synthetic request", "the request given to Table.Lookup is not built in the interceptor's region")
+			continue
 		}
-		c.check("C16.P3", "proxy.(*grpcConnectionPool).cleanup|lock released before sleeping", i.Pos(), len(heldAt(i, false)) == 0,
-			"sleeping while holding the pool lock blocks every gRPC call for the whole cleanup interval")
-	})
-	// started by the constructor
-	started := false
-	if ctor := c.fn("proxy", "newGrpcConnectionPool"); ctor != nil {
-		eachInstr(ctor, func(i ssa.Instruction) {
-			if g, ok := i.(*ssa.Go); ok && g.Call.StaticCallee() == cleanup {
-				started = true
+		okURL, okHost := true, true
+		for _, alloc := range allocs {
+			fs := fieldStores(alloc)
+			u := false
+			for _, st := range fs["URL"] {
+				if derives(st.Val, isFullMethod) {
+					u = true
+				}
 			}
-		})
-	}
-	c.check("C16.P3", "proxy.newGrpcConnectionPool|cleanup started", cleanup.Pos(), started, "connections to backends that left the table are dropped only by cleanup(); it must be started with the pool")
-	// deletes entries whose target left the table
-	hasT := c.fn("proxy", "hasTarget")
-	delUnderMiss := false
-	eachInstr(cleanup, func(i ssa.Instruction) {
-		if cc := callCommon(i); cc != nil && calleeName(cc) == "builtin.delete" && hasT != nil && factCallTo(i.Block(), hasT, false) != nil {
-			delUnderMiss = true
+			okURL = okURL && u
+			h := len(fs["Host"]) > 0
+			for _, st := range fs["Host"] {
+				h = h && derivesDstHost(c, st.Val)
+			}
+			okHost = okHost && h
 		}
-	})
-	c.check("C16.P3", "proxy.(*grpcConnectionPool).cleanup|connections of vanished targets are dropped", cleanup.Pos(), delUnderMiss, "an entry whose target is no longer in the table must be deleted (and closed)")
+		c.check("C16.L1", "proxy.GrpcProxyInterceptor.lookup|path is the full method name", call.Pos(), okURL, "the route is matched against the call's full method (/package.Service/Method)")
+		c.check("C16.L1", "proxy.GrpcProxyInterceptor.lookup|host is the single dsthost metadata value", call.Pos(), okHost, "the host used for routing must be the 'dsthost' metadata value (only when exactly one is present)")
+		// picker / matcher from config
+		okPick := derives(call.Call.Args[3], func(v ssa.Value) bool { _, ok := fieldOf(v, "config.Proxy", "Strategy"); return ok })
+		okMatch := derives(call.Call.Args[4], func(v ssa.Value) bool { _, ok := fieldOf(v, "config.Proxy", "Matcher"); return ok })
+		c.check("C16.L1", "proxy.GrpcProxyInterceptor.lookup|configured strategy and matcher", call.Pos(), okPick && okMatch, "the gRPC lookup must use route.Picker[cfg.Proxy.Strategy] and route.Matcher[cfg.Proxy.Matcher]")
+	}
+}
+
+// derivesDstHost: the routing host v is taken from the "dsthost" metadata, and only where exactly one value is present.
+func derivesDstHost(c *Ctx, v ssa.Value) bool {
+	reads, elems := c16mdReads(v)
+	dst := false
+	for _, r := range reads {
+		if r.known && r.key == "dsthost" {
+			dst = true
+		}
+	}
+	single := false
+	for _, ia := range elems {
+		if c16lenIsOne(ia.Block(), ia.X) {
+			single = true
+		}
+	}
+	return dst && single
 }
 
 func stripLoad(v ssa.Value) ssa.Value {
@@ -517,4 +579,137 @@ func stripLoad(v ssa.Value) ssa.Value {
 		return u.X
 	}
 	return v
+}
+
+// targetByPairedResult: the block is reached only where the error result of a helper H is nil, and H returns a nil error
+// only together with a non-nil target of the lookup (`target, st := g.resolve(...); if st != nil { return st }`: the
+// nil-target guard lives in resolve).
+func (r *c16roles) targetByPairedResult(b *ssa.BasicBlock, needErr bool) bool {
+	for _, ft := range c16factsAt(b, 0) {
+		var e *ssa.Extract
+		if nn, ok := nilFact(ft, func(v ssa.Value) bool {
+			x, isE := v.(*ssa.Extract)
+			if isE && c16isErrT(x.Type()) {
+				e = x
+			}
+			return isE && c16isErrT(x.Type())
+		}); !ok || nn || e == nil {
+			continue
+		}
+		call, ok := e.Tuple.(*ssa.Call)
+		if !ok {
+			continue
+		}
+		h := call.Call.StaticCallee()
+		if h == nil || !isRepoFn(h) || len(h.Blocks) == 0 || !c16inFns(r.sreg, h) {
+			continue
+		}
+		tIdx := -1
+		for k := 0; k < h.Signature.Results().Len(); k++ {
+			if c16isTargetT(h.Signature.Results().At(k).Type()) {
+				tIdx = k
+			}
+		}
+		if tIdx < 0 {
+			continue
+		}
+		good, n := true, 0
+		eachInstr(h, func(i ssa.Instruction) {
+			ret, isR := i.(*ssa.Return)
+			if !isR || len(ret.Results) <= e.Index || len(ret.Results) <= tIdx {
+				return
+			}
+			n++
+			ev, tv := ret.Results[e.Index], ret.Results[tIdx]
+			if c16surelyError(ev, ret.Block()) {
+				return
+			}
+			if r.isTarget(tv) && c16knownNonNil(ret.Block(), samePath(tv)) && (!needErr || c16knownNil(ret.Block(), r.isLookupErr)) {
+				return
+			}
+			good = false
+		})
+		if good && n > 0 {
+			return true
+		}
+	}
+	return false
+}
+
+// c16surelyError: v is a non-nil error at block b: freshly made, or known non-nil by the branch facts.
+func c16surelyError(v ssa.Value, b *ssa.BasicBlock) bool {
+	if isNilConst(v) {
+		return false
+	}
+	if len(c16statusCodes(v)) > 0 {
+		if _, isPhi := v.(*ssa.Phi); !isPhi {
+			return true
+		}
+	}
+	if call, ok := v.(*ssa.Call); ok {
+		switch calleeName(&call.Call) {
+		case "fmt.Errorf", "errors.New":
+			return true
+		}
+	}
+	return c16knownNonNil(b, samePath(v))
+}
+
+// runC16G1Wrapper: the stream handed to the handler must answer Context() with the context that carries the target, not
+// with the embedded stream's own context.
+func runC16G1Wrapper(c *Ctx, R *c16roles) {
+	const what = "the stream handed to the handler must return the stored context (built with context.WithValue(ctx, key, target)) from Context(); with the embedded stream's own context the director finds no target and every call fails with 'no route found'"
+	for _, call := range R.handlers {
+		if len(call.Call.Args) != 2 {
+			continue
+		}
+		seen := map[types.Type]bool{}
+		derives(call.Call.Args[1], func(v ssa.Value) bool {
+			mi, ok := v.(*ssa.MakeInterface)
+			if !ok || seen[mi.X.Type()] {
+				return false
+			}
+			seen[mi.X.Type()] = true
+			sel := c.Prog.MethodSets.MethodSet(mi.X.Type()).Lookup(nil, "Context")
+			if sel == nil {
+				return false
+			}
+			m := c.Prog.MethodValue(sel)
+			if m == nil {
+				return false
+			}
+			if m.Synthetic != "" || !isRepoFn(m) || len(m.Blocks) == 0 {
+				// promoted from the embedded grpc.ServerStream: the wrapper has no Context() of its own
+				c.check("C16.G1", "proxy.proxyStream.Context|the wrapper stream returns the context that carries the target", call.Pos(), false, what)
+				return false
+			}
+			own := false
+			eachInstr(m, func(i ssa.Instruction) {
+				ret, isR := i.(*ssa.Return)
+				if !isR || len(ret.Results) != 1 {
+					return
+				}
+				if derives(ret.Results[0], func(x ssa.Value) bool {
+					switch y := x.(type) {
+					case *ssa.FieldAddr:
+						return c16isCtxT(deref(y.Type()))
+					case *ssa.Field:
+						return c16isCtxT(y.Type())
+					}
+					return false
+				}) {
+					own = true
+				}
+			})
+			c.check("C16.G1", "proxy.proxyStream.Context|the wrapper stream returns the context that carries the target", m.Pos(), own, what)
+			return false
+		})
+	}
+}
+
+func deref(t types.Type) types.Type {
+	if p, ok := t.Underlying().(*types.Pointer); ok {
+		return p.Elem()
+	}
+	return t
 }
